@@ -148,6 +148,14 @@ func CheckC03(r *core.Run) {
 		}
 		r.AddSample(map[string]interface{}{"cfg": traces[0].Meta, "first_events": traces[0].Events[1:n]})
 	}
+	{
+		for _, t := range traces {
+			if t != nil && len(t.Events) > 300 {
+				runSelfTest(r, "TxTrace", "TxTrace.cfg", t, txMutants())
+				break
+			}
+		}
+	}
 	judgeTx(r, traces, reportOpts{})
 }
 
